@@ -76,11 +76,16 @@ Definition lookup (t : list (Z * Z)) (k : Z) : Z :=
 Definition all_in (t : list (Z * Z)) (args : list (list Z)) : bool :=
   forallb (forallb (fun k => existsb (fun p => fst p =? k) t)) args.
 
-(* what one correspondence case prints *)
-Definition report (c : Z) (corr : cmap) (icy icx iry irx D : Z) :=
+(* what one correspondence case prints: argmax and maximum of the map; value, centre of mass and elevation evaluated
+   at the implementation's centre (icy, icx) (window coordinates), the elevation at the model's own centre of mass *)
+Definition report (c : Z) (corr : cmap) (icy icx : Z) :=
   let N := 2 * c in
   let tab := Corr.tabulate N N corr in
   let cm := Corr.of_list2 tab in
   let '(y, x) := argmax2 N N cm in
   let m := refine_com N N cm icy icx in
-  ((y, x), cm y x, cm icy icx, (com_r m, com_sy m, com_sx m, com_s m), elevation N N cm iry irx D (cm icy icx)).
+  let deg := (com_r m <=? 0) || (com_s m <=? 0) in
+  let D := if deg then 1 else com_s m in
+  let ry := if deg then icy else icy * com_s m + com_sy m - com_r m * com_s m in
+  let rx := if deg then icx else icx * com_s m + com_sx m - com_r m * com_s m in
+  ((y, x), cm y x, cm icy icx, (com_r m, com_sy m, com_sx m, com_s m), elevation N N cm ry rx D (cm icy icx)).
